@@ -144,6 +144,8 @@ def setup():
     os.makedirs(V.SCRATCH, exist_ok=True)
     try:
         V.build_seqmc()
+        V.build_schedmc()
+        V.build_langmc()
     except V.HarnessError as e:
         print("setup failed:", e, file=sys.stderr)
         return 2
